@@ -20,7 +20,8 @@ and the writer of `git config <name> <value>`:
 
 * `[section]` / `[section "subsection"]` with `"` and `\\` of the subsection backslash-escaped
 * TAB name SP = SP value LF; the value is wrapped in double quotes when it begins or ends with SP or
-  contains `;` or `#`; LF -> `\\n`, TAB -> `\\t`, `"` -> `\\"`, `\\` -> `\\\\`, everything else verbatim.
+  contains `;`, `#` or CR (CR since the fix for CVE-2025-48384, which Debian's 2.39.5 carries);
+  LF -> `\\n`, TAB -> `\\t`, `"` -> `\\"`, `\\` -> `\\\\`, everything else verbatim.
 
 Only used as an oracle; C git is run on the same files and must agree (HarnessError otherwise).
 """
@@ -67,7 +68,7 @@ class _Src:
         return c
 
 
-def _value(src, events):
+def _value(src):
     out = bytearray()
     quote = False
     comment = False
@@ -83,12 +84,9 @@ def _value(src, events):
         if c in _SPACE and not quote:
             if out:
                 space += 1
-                if c != 0x20:
-                    events.append("unquoted-inner-whitespace-%s" % byte_name(c))
             continue
         if not quote and c in (ord(";"), ord("#")):
             comment = True
-            events.append("unquoted-comment-char-%s" % byte_name(c))
             continue
         if space:
             out += b" " * space
@@ -98,7 +96,7 @@ def _value(src, events):
             if c == LF:
                 continue  # continuation line (at end of file the next read ends the value)
             if c not in _ESC:
-                raise BadConfig("unknown-escape-%s" % byte_name(c))
+                raise BadConfig("unknown-escape-%s" % (chr(c) if chr(c).isalnum() and c < 0x80 else byte_name(c)))
             out.append(_ESC[c])
             continue
         if c == ord('"'):
@@ -149,14 +147,10 @@ def _header(src):
     return bytes(name)
 
 
-def parse(data: bytes, events=None):
+def parse(data: bytes):
     """-> [(flat_name, value_or_None)] in file order, as `git config --list` reports them.
 
-    flat_name = lower(section) ['.' subsection] '.' lower(name).  Raises BadConfig.
-    `events` (optional list) collects lexical observations that explain a reading
-    (unquoted comment characters, collapsed unquoted inner whitespace)."""
-    if events is None:
-        events = []
+    flat_name = lower(section) ['.' subsection] '.' lower(name).  Raises BadConfig."""
     src = _Src(data)
     out = []
     prefix = b""
@@ -191,7 +185,7 @@ def parse(data: bytes, events=None):
             continue
         if c != ord("="):
             raise BadConfig("bad-variable-line")
-        out.append((prefix + bytes(name), _value(src, events)))
+        out.append((prefix + bytes(name), _value(src)))
 
 
 # ------------------------------------------------------------------------------ names
@@ -227,7 +221,7 @@ def flat(section: bytes, subsection, key: bytes) -> bytes:
 
 def format_value(value: bytes) -> bytes:
     q = b""
-    if value[:1] == b" " or value[-1:] == b" " or b";" in value or b"#" in value:
+    if value[:1] == b" " or value[-1:] == b" " or b";" in value or b"#" in value or b"\r" in value:
         q = b'"'
     body = (
         value.replace(b"\\", b"\\\\").replace(b'"', b'\\"').replace(b"\n", b"\\n").replace(b"\t", b"\\t")
